@@ -9,6 +9,10 @@
 #include "Covariances/CovAniso.hpp"
 #include "Matrix/MatrixRectangular.hpp"
 #include "Matrix/MatrixSquareSymmetric.hpp"
+#include "Estimation/CalcKriging.hpp"
+#include "Neigh/NeighMoving.hpp"
+#include "Calculators/CalcMigrate.hpp"
+#include "Neigh/NeighUnique.hpp"
 
 using namespace vf;
 using namespace vfm;
@@ -115,6 +119,10 @@ static bool staleState(const Model* m)
 // what a successful request does at its end (public call); used by the harness so that the history effect of a FAILED
 // request (judged in part p1_history / property C10) does not leak into the next differential comparison
 static void cleanState(const Model* m) { m->getCovAnisoList()->optimizationPostProcess(); }
+// ACovAnisoList never clears its own (list level) copy of the sample points: Db::getSamplesAsSP appends, so every request
+// on the same model makes the next one slower (k requests cost O(k^2)); results are not affected (the first n entries are
+// rewritten). The harness drops that copy to keep the enumeration fast; it is reported as a note, not as a violation.
+static size_t dropListCopy(const Model* m) { auto* l = m->getCovAnisoList(); size_t k = l->_p1As.size(); l->_p1As.clear(); l->_p1As.shrink_to_fit(); return k; }
 static bool optimCapable(const Model* m)
 {
   const ACovAnisoList* l = m->getCovAnisoList();
@@ -128,10 +136,10 @@ VF_PART(p1_covmat_optim)
   using namespace p1;
   Space sp;
   bool T = C.thorough();
-  sp.axis("ndim", 3).axis("layout", NLAYOUT).axis("n", T ? 3 : 1).axis("model", NMODEL1 + NMODEL2).axis("sel", NSEL).axis("upat", NUPAT).axis("verr", 2).axis("db2", NDB2);
+  sp.axis("ndim", 3).axis("layout", NLAYOUT).axis("n", T ? 4 : 1).axis("model", NMODEL1 + NMODEL2).axis("sel", NSEL).axis("upat", NUPAT).axis("verr", 2).axis("db2", NDB2);
   for_each_case(C, sp, [&](uint64_t id, const std::vector<int>& idx) {
     Setup S;
-    S.ndim = idx[0] + 1; S.ilay = idx[1]; S.n = T ? 4 + idx[2] : 5;
+    S.ndim = idx[0] + 1; S.ilay = idx[1]; S.n = T ? 3 + idx[2] : 5;
     S.nvar = idx[3] < NMODEL1 ? 1 : 2; S.im = idx[3] < NMODEL1 ? idx[3] : idx[3] - NMODEL1;
     S.selpat = idx[4]; S.upat = idx[5]; S.verr = idx[6]; S.db2kind = idx[7];
     if (!build(S)) { C.skip(); C.outcome("build-failed"); return; }
@@ -146,6 +154,8 @@ VF_PART(p1_covmat_optim)
       for (int ivar0 = -1; ivar0 <= 1; ivar0++)
         for (int k1 = 0; k1 < 3; k1++)
         {
+          // monovariate model: variable rank 1 is invalid (both paths must refuse); judged once per setup, not 45 times
+          if (S.nvar == 1 && ivar0 == 1 && (k1 != 0 || km != 0)) continue;
           VectorInt nb1 = nbghOf(k1, S.n);
           // ---- symmetric pair (does not read db2)
           if (S.db2kind == 0)
@@ -160,6 +170,7 @@ VF_PART(p1_covmat_optim)
             if (!d.empty())
               C.violation(km == 4 ? std::string("optim:active-cov-list-ignored:symmetric") : std::string("optim:symmetric:mode=") + MODE_NAME[km], "evalCovMatrixSymmetricOptim != evalCovMatrixSymmetric at " + d + " ; " + S.desc + " ivar0=" + std::to_string(ivar0) +
                           " nbgh1=" + vstr(nb1) + " mode=" + MODE_NAME[km], kase);
+            dropListCopy(S.model.get());
             if (staleState(S.model.get()))
             {  // a failed request leaves projected points behind (C10's subject): do not let it leak into the next comparison
               C.outcome(empty ? "sym:stale-state-after-empty-result" : "sym:stale-state-after-success");
@@ -172,6 +183,7 @@ VF_PART(p1_covmat_optim)
           for (int jvar0 = -1; jvar0 <= 1; jvar0++)
             for (int k2 = 0; k2 < 3; k2++)
             {
+              if (S.nvar == 1 && jvar0 == 1 && (k2 != 0 || km != 0)) continue;
               const Db* d2 = S.db2.get();
               int n2 = d2 ? d2->getSampleNumber() : S.n;
               VectorInt nb2 = nbghOf(k2, n2);
@@ -185,6 +197,7 @@ VF_PART(p1_covmat_optim)
               if (!d.empty())
                 C.violation(km == 4 ? std::string("optim:active-cov-list-ignored:rect") : std::string("optim:rect:mode=") + MODE_NAME[km], "evalCovMatrixOptim != evalCovMatrix at " + d + " ; " + S.desc + " ivar0=" + std::to_string(ivar0) + " jvar0=" +
                             std::to_string(jvar0) + " nbgh1=" + vstr(nb1) + " nbgh2=" + vstr(nb2) + " mode=" + MODE_NAME[km], kase);
+              dropListCopy(S.model.get());
               if (staleState(S.model.get()))
               {
                 C.outcome(empty ? "rect:stale-state-after-empty-result" : "rect:stale-state-after-success");
@@ -195,6 +208,630 @@ VF_PART(p1_covmat_optim)
         }
     }
   });
+}
+
+
+// =====================================================================================================
+// shared kriging helpers
+// =====================================================================================================
+namespace kk
+{
+// values of the column called `name` (TEST-filled vector when the column does not exist)
+static VD col(const Db* db, const std::string& name)
+{
+  int ic = db->getColIdx(name);
+  VD v(db->getSampleNumber(), std::nan(""));
+  if (ic < 0) return v;
+  for (int i = 0; i < db->getSampleNumber(); i++) v[i] = db->getValueByColIdx(i, ic);
+  return v;
+}
+static std::string decade(double d)
+{
+  if (d == 0) return "diff=0";
+  int e = (int)std::floor(std::log10(d));
+  if (e < -16) e = -16;
+  char b[32]; snprintf(b, 32, "diff~1e%+03d", e);
+  return b;
+}
+// mean / drift options
+static const int NMEAN = 4;
+static const char* MEAN_NAME[NMEAN] = {"SK mean 0", "SK mean 1.5", "ordinary", "linear drift"};
+// returns false when the combination is documented as invalid
+static bool applyMean(Model* m, int kmean, bool intrinsic)
+{
+  switch (kmean)
+  {
+    case 0: if (intrinsic) return false; break;
+    case 1: if (intrinsic) return false; for (int iv = 0; iv < m->getVariableNumber(); iv++) m->setMean(1.5 - iv, iv); break;
+    case 2: m->setDriftIRF(0); break;
+    case 3: m->setDriftIRF(1); break;
+  }
+  return true;
+}
+}  // namespace kk
+
+// =====================================================================================================
+// Part 3: xvalid in unique neighbourhood (shortcut through the inverse LHS)  vs  explicit leave-one-out
+// =====================================================================================================
+VF_PART(p3_xvalid_unique)
+{
+  using namespace kk;
+  bool T = C.thorough();
+  Space sp;
+  // sel: 0 none, 1..: sample (sel-1) masked ; undef: 0 none, 1..: value of sample (undef-1) undefined
+  sp.axis("ndim", 3).axis("layout", NLAYOUT).axis("n", T ? 3 : 2).axis("model", NMODEL1).axis("mean", NMEAN).axis("sel", T ? 4 : 3).axis("undef", T ? 4 : 3).axis("verr", 2).axis("flags", 4);
+  for_each_case(C, sp, [&](uint64_t id, const std::vector<int>& idx) {
+    int ndim = idx[0] + 1, ilay = idx[1], n = T ? 4 + idx[2] : (idx[2] ? 6 : 4), im = idx[3], kmean = idx[4], ksel = idx[5], kund = idx[6], kv = idx[7];
+    int fest = (idx[8] & 1) ? -1 : 1, fstd = (idx[8] & 2) ? -1 : 1;
+    std::string kase = std::to_string(id);
+    Raw r = make_raw(ndim, 1, ilay, n);
+    if (ksel > 0) { r.sel = VD(n, 1.); r.sel[(ksel * 2 - 1) % n] = 0; }
+    if (kund > 0) r.z[0][(kund * 3 - 3) % n] = TEST;
+    if (kv) r.v.push_back(verr(0, n));
+    ModelP model(make_model(ndim, 1, im));
+    if (!applyMean(model.get(), kmean, im == 7)) { C.skip(); C.outcome("excluded:intrinsic-model-without-drift"); return; }
+    // more drift equations than data left after removing one sample: excluded (system undefined)
+    int nact = 0;
+    for (int i = 0; i < n; i++) if ((r.sel.empty() || r.sel[i] > 0) && !FFFF(r.z[0][i])) nact++;
+    int nfeq = kmean == 2 ? 1 : kmean == 3 ? 1 + ndim : 0;
+    if (nact - 1 <= nfeq) { C.skip(); C.outcome("excluded:not-more-data-than-drift-equations"); return; }
+    // on the regular layouts the linear drift functions are collinear on some leave-one-out subsets: decided by the LOO kriging itself
+    DbP db(raw_to_db(r));
+    std::unique_ptr<NeighUnique> neigh(NeighUnique::create());
+    int err = xvalid(db.get(), model.get(), neigh.get(), false, fest, fstd, 0);
+    C.eval();
+    if (err) { C.outcome("xvalid-refused"); C.violation("xvalid-unique:refused", "xvalid in unique neighbourhood returned an error; data=" + raw_str(r) + " model=" + model_name(1, im) + " " + MEAN_NAME[kmean], kase); return; }
+    VD e1 = col(db.get(), fest > 0 ? "Xvalid.z1.esterr" : "Xvalid.z1.estim");
+    VD s1 = col(db.get(), fstd > 0 ? "Xvalid.z1.stderr" : "Xvalid.z1.stdev");
+    // the same cross-validation through a MOVING neighbourhood wide enough to hold every sample: the neighbourhood changes with
+    // every target (the target is excluded), so the LHS memo of ANeigh must be invalidated each time
+    VD e3, s3;
+    {
+      DbP db3(raw_to_db(r));
+      ModelP m3(make_model(ndim, 1, im)); applyMean(m3.get(), kmean, im == 7);
+      std::unique_ptr<NeighMoving> nm(NeighMoving::create(false, 100, 1024.));
+      if (xvalid(db3.get(), m3.get(), nm.get(), false, fest, fstd, 0) == 0)
+      { e3 = col(db3.get(), fest > 0 ? "Xvalid.z1.esterr" : "Xvalid.z1.estim"); s3 = col(db3.get(), fstd > 0 ? "Xvalid.z1.stderr" : "Xvalid.z1.stdev"); }
+    }
+    bool any = false;
+    double worst = 0;
+    for (int i = 0; i < n; i++)
+    {
+      bool active = (r.sel.empty() || r.sel[i] > 0);
+      bool defined = !FFFF(r.z[0][i]);
+      // explicit leave-one-out: physically reduced data (sample i, masked and undefined samples removed), target = sample i
+      std::vector<int> keep(n);
+      for (int j = 0; j < n; j++) keep[j] = (j != i) && (r.sel.empty() || r.sel[j] > 0) && !FFFF(r.z[0][j]);
+      if (!active || !defined)
+      {
+        // not a cross-validation site: nothing may be written there
+        bool untouched = FFFF(e1[i]) && FFFF(s1[i]);
+        C.outcome(untouched ? "inactive-site:left-undefined" : "inactive-site:WRITTEN");
+        if (!untouched) C.violation("xvalid-unique:inactive-site-written", "masked/undefined sample " + std::to_string(i) + " received a cross-validation result; data=" + raw_str(r), kase);
+        continue;
+      }
+      Raw rr = reduce_raw(r, keep);
+      DbP dred(raw_to_db(rr));
+      Raw rt; rt.ndim = ndim; rt.nvar = 0; rt.n = 1; rt.x = VVD(ndim, VD(1)); for (int d = 0; d < ndim; d++) rt.x[d][0] = r.x[d][i];
+      DbP dtar(raw_to_db(rt));
+      ModelP m2(make_model(ndim, 1, im)); applyMean(m2.get(), kmean, im == 7);
+      std::unique_ptr<NeighUnique> nu(NeighUnique::create());
+      int e2 = kriging(dred.get(), dtar.get(), m2.get(), nu.get(), EKrigOpt::POINT, true, true, false);
+      double zs = col(dtar.get(), "Kriging.z1.estim")[0], sd = col(dtar.get(), "Kriging.z1.stdev")[0];
+      if (e2 || FFFF(zs) || FFFF(sd) || std::isnan(zs))
+      {  // reference system not solvable (e.g. collinear drift on the remaining samples): outcome is implementation defined
+        C.skip(); C.outcome("excluded:leave-one-out-system-singular"); continue;
+      }
+      double z = r.z[0][i];
+      double refE = fest > 0 ? zs - z : zs;
+      double refS = fstd > 0 ? (sd > 0 ? (zs - z) / sd : TEST) : sd;
+      if (sd <= 1e-7) { C.skip(); C.outcome("excluded:zero-variance-site"); continue; }
+      any = true;
+      double scale = std::max(1., std::fabs(z));
+      double dE = std::fabs(e1[i] - refE) / std::max(scale, std::fabs(refE)), dS = std::fabs(s1[i] - refS) / std::max(1., std::fabs(refS));
+      if (FFFF(e1[i]) || FFFF(s1[i])) { dE = dS = 1e30; }
+      worst = std::max({worst, dE, dS});
+      if (!e3.empty())
+      {
+        double dE3 = std::fabs(e3[i] - refE) / std::max(scale, std::fabs(refE)), dS3 = std::fabs(s3[i] - refS) / std::max(1., std::fabs(refS));
+        if (FFFF(e3[i]) || FFFF(s3[i])) dE3 = dS3 = 1e30;
+        C.outcome(dE3 > 1e-8 || dS3 > 1e-8 ? "xvalid-moving-wide:DIFFERENT" : "xvalid-moving-wide:equal");
+        if (dE3 > 1e-8 || dS3 > 1e-8)
+          C.violation("xvalid-moving-wide:differs-from-leave-one-out", "sample " + std::to_string(i) + ": xvalid(moving neighbourhood holding all samples) est=" + fmt(e3[i]) + " std=" + fmt(s3[i]) + " ; explicit leave-one-out est=" +
+                      fmt(refE) + " std=" + fmt(refS) + " data=" + raw_str(r) + " model=" + model_name(1, im) + " " + MEAN_NAME[kmean], kase);
+      }
+      if (dE > 1e-8 || dS > 1e-8)
+      {
+        // mechanism: the shortcut's variance 1/inv(LHS)_ii is the error variance of the NOISY datum (it contains V_i), explicit
+        // re-kriging estimates the point value: S_shortcut^2 = S_loo^2 + V_i, same estimate
+        std::string key = "xvalid-unique:differs-from-leave-one-out";
+        std::string arb;
+        if (kv && dE <= 1e-8 && !FFFF(s1[i]))
+        {
+          double Vi = r.v[0][i];
+          double sshort = fstd < 0 ? s1[i] : (s1[i] != 0 ? (zs - z) / s1[i] : TEST);
+          if (!FFFF(sshort) && std::fabs(sshort * sshort - (sd * sd + Vi)) <= 1e-8 * std::max(1., sd * sd + Vi)) key = "xvalid-unique:stdev-includes-measurement-error-of-left-out-sample";
+        }
+        {  // third answer, for the report only: xvalid through a moving neighbourhood that contains every sample
+          DbP db3(raw_to_db(r));
+          ModelP m3(make_model(ndim, 1, im)); applyMean(m3.get(), kmean, im == 7);
+          std::unique_ptr<NeighMoving> nm(NeighMoving::create(false, 100, 1000.));
+          if (xvalid(db3.get(), m3.get(), nm.get(), false, fest, fstd, 0) == 0)
+            arb = " ; xvalid(moving, all samples) est=" + fmt(col(db3.get(), fest > 0 ? "Xvalid.z1.esterr" : "Xvalid.z1.estim")[i]) + " std=" + fmt(col(db3.get(), fstd > 0 ? "Xvalid.z1.stderr" : "Xvalid.z1.stdev")[i]);
+        }
+        C.violation(key,
+                    "sample " + std::to_string(i) + ": xvalid(unique) est=" + fmt(e1[i]) + " std=" + fmt(s1[i]) + " ; explicit leave-one-out est=" + fmt(refE) + " std=" + fmt(refS) + arb + " (flags est=" +
+                    std::to_string(fest) + " std=" + std::to_string(fstd) + ") data=" + raw_str(r) + " model=" + model_name(1, im) + " " + MEAN_NAME[kmean], kase);
+      }
+    }
+    if (any) { C.nontrivial(id); C.outcome(std::string(kv ? "judged:with-V:" : "judged:no-V:") + decade(worst)); }
+    if (id % 2503 == 11) C.sample("{\"id\":" + kase + ",\"data\":" + raw_str(r) + ",\"model\":" + jstr(model_name(1, im)) + ",\"mean\":" + jstr(MEAN_NAME[kmean]) + "}");
+  });
+}
+
+// =====================================================================================================
+// Part 2: unique neighbourhood  vs  moving neighbourhood wide enough to contain all samples,
+//         for every visiting order (with repetitions) of up to 3 (thorough: 4) targets out of 4.
+//         The moving path re-uses the inverted LHS while the neighbourhood is unchanged (ANeigh memo) -> history dependent.
+// =====================================================================================================
+namespace p2
+{
+struct Out { VD est[2], std[2], varz[2]; int err = 0; };
+static Out runKrig(const Raw& r, const VVD& tx, int ndim, int nvar, int im, int kmean, ANeigh* neigh, bool varz, const EKrigOpt& opt = EKrigOpt::POINT, const VectorInt& ndisc = VectorInt())
+{
+  using namespace kk;
+  Out o;
+  DbP din(raw_to_db(r));
+  Raw rt; rt.ndim = ndim; rt.nvar = 0; rt.n = (int)tx[0].size(); rt.x = tx;
+  DbP dout(raw_to_db(rt));
+  ModelP m(make_model(ndim, nvar, im)); applyMean(m.get(), kmean, nvar == 1 && im == 7);
+  o.err = kriging(din.get(), dout.get(), m.get(), neigh, opt, true, true, varz, ndisc);
+  for (int iv = 0; iv < nvar; iv++)
+  {
+    std::string z = "Kriging.z" + std::to_string(iv + 1);
+    o.est[iv] = col(dout.get(), z + ".estim"); o.std[iv] = col(dout.get(), z + ".stdev"); o.varz[iv] = col(dout.get(), z + ".varz");
+  }
+  return o;
+}
+// compares two outputs target by target; returns "" or a description; sets `worst`
+static std::string cmpOut(const Out& a, const Out& b, int nvar, int nt, bool varz, double& worst)
+{
+  if (a.err != b.err) return "error codes " + std::to_string(a.err) + " vs " + std::to_string(b.err);
+  std::string d;
+  for (int iv = 0; iv < nvar; iv++)
+    for (int t = 0; t < nt; t++)
+    {
+      auto one = [&](const char* what, double x, double y, bool square) {
+        bool ux = FFFF(x) || std::isnan(x), uy = FFFF(y) || std::isnan(y);
+        if (ux || uy) { if (ux != uy && d.empty()) d = std::string(what) + " of variable " + std::to_string(iv + 1) + " at target " + std::to_string(t) + ": " + fmt(x) + " vs " + fmt(y) + " (defined/undefined)"; return; }
+        double xx = square ? x * x : x, yy = square ? y * y : y;
+        double e = std::fabs(xx - yy) / std::max({1., std::fabs(xx), std::fabs(yy)});
+        worst = std::max(worst, e);
+        if (e > 1e-9 && d.empty()) d = std::string(what) + " of variable " + std::to_string(iv + 1) + " at target " + std::to_string(t) + ": " + fmt(x) + " vs " + fmt(y);
+      };
+      one("estim", a.est[iv][t], b.est[iv][t], false);
+      one("stdev", a.std[iv][t], b.std[iv][t], true);   // judged on the variance scale (DESIGN 2.9 / C02 note)
+      if (varz) one("varz", a.varz[iv][t], b.varz[iv][t], false);
+    }
+  return d;
+}
+}  // namespace p2
+
+VF_PART(p2_unique_vs_moving)
+{
+  using namespace kk;
+  using namespace p2;
+  bool T = C.thorough();
+  int maxlen = T ? 4 : 3;
+  // all sequences over 4 targets with length 1..maxlen
+  std::vector<std::vector<int>> seqs;
+  for (int len = 1; len <= maxlen; len++)
+  {
+    int tot = 1; for (int k = 0; k < len; k++) tot *= 4;
+    for (int c = 0; c < tot; c++) { std::vector<int> q; int v = c; for (int k = 0; k < len; k++) { q.push_back(v % 4); v /= 4; } seqs.push_back(q); }
+  }
+  Space sp;
+  sp.axis("ndim", 3).axis("layout", NLAYOUT).axis("n", T ? 2 : 1).axis("model", NMODEL1 + NMODEL2).axis("mean", NMEAN).axis("upat", 3).axis("radius", T ? 2 : 1).axis("seq", (int)seqs.size());
+  for_each_case(C, sp, [&](uint64_t id, const std::vector<int>& idx) {
+    int ndim = idx[0] + 1, ilay = idx[1], n = T ? (idx[2] ? 6 : 4) : 5;
+    int nvar = idx[3] < NMODEL1 ? 1 : 2, im = idx[3] < NMODEL1 ? idx[3] : idx[3] - NMODEL1, kmean = idx[4], upat = idx[5];
+    const std::vector<int>& seq = seqs[idx[7]];
+    bool intrinsic = nvar == 1 && im == 7;
+    std::string kase = std::to_string(id);
+    if (intrinsic && kmean < 2) { C.skip(); C.outcome("excluded:intrinsic-model-without-drift"); return; }
+    int nfeq = kmean == 2 ? 1 : kmean == 3 ? 1 + ndim : 0;
+    Raw r = make_raw(ndim, nvar, ilay, n);
+    if (upat == 1) r.z[0][1] = TEST;
+    if (upat == 2) { r.z[nvar - 1][0] = TEST; r.z[0][2] = TEST; }
+    if (n - 2 <= nfeq) { C.skip(); C.outcome("excluded:not-more-data-than-drift-equations"); return; }
+    VVD t4 = targets(ndim, ilay, 4), tx(ndim);
+    for (int d = 0; d < ndim; d++) for (int k : seq) tx[d].push_back(t4[d][k]);
+    bool varz = !intrinsic && kmean < 3;
+    set_ndim(ndim);
+    std::unique_ptr<NeighUnique> nu(NeighUnique::create());
+    std::unique_ptr<NeighMoving> nm(NeighMoving::create(false, 100, idx[6] ? 1024. : TEST));
+    Out a = runKrig(r, tx, ndim, nvar, im, kmean, nu.get(), varz);
+    Out b = runKrig(r, tx, ndim, nvar, im, kmean, nm.get(), varz);
+    C.eval();
+    bool defined = false;
+    for (size_t t = 0; t < seq.size(); t++) if (!FFFF(a.est[0][t]) && !std::isnan(a.est[0][t])) defined = true;
+    if (a.err && b.err) { C.skip(); C.outcome("both-refused"); return; }
+    if (!defined && !a.err) C.outcome("unique:system-singular(undefined results)");
+    double worst = 0;
+    std::string d = cmpOut(a, b, nvar, (int)seq.size(), varz, worst);
+    bool reused = nm->_flagIsUnchanged;  // the last target of the moving run found its neighbourhood unchanged (LHS re-used)
+    C.outcome(std::string(reused ? "lhs-reused:" : "lhs-not-reused:") + (d.empty() ? decade(worst) : "DIFFERENT"));
+    if (reused && seq.size() > 1 && defined) C.nontrivial(id);
+    if (!d.empty())
+    {
+      std::string sq; for (int k : seq) sq += std::to_string(k);
+      C.violation(seq.size() == 1 ? "unique-vs-moving:single-target" : "unique-vs-moving:target-sequence", "kriging unique vs moving(all samples): " + d + " ; target sequence=" + sq + " data=" + raw_str(r) + " model=" +
+                  model_name(nvar, im) + " " + MEAN_NAME[kmean] + " radius=" + (idx[6] ? "1024" : "undefined"), kase);
+    }
+    if (id % 30011 == 3) C.sample("{\"id\":" + kase + ",\"data\":" + raw_str(r) + ",\"model\":" + jstr(model_name(nvar, im)) + ",\"mean\":" + jstr(MEAN_NAME[kmean]) + "}");
+  });
+}
+
+// =====================================================================================================
+// Part 4a: migrate(..., flag_ball=true)  vs  flag_ball=false  (nearest-point migration), brute force arbitrates
+// =====================================================================================================
+namespace p4
+{
+static double sq(double v) { return v * v; }
+// exact squared Euclidean distance (dyadic coordinates)
+static double d2(const VVD& a, int i, const VVD& b, int j) { double s = 0; for (size_t d = 0; d < a.size(); d++) s += sq(a[d][i] - b[d][j]); return s; }
+static bool beyond(const VVD& a, int i, const VVD& b, int j, int distType, const VD& dmax)
+{
+  if (dmax.empty()) return false;
+  int nd = (int)a.size();
+  if (distType == 1) { for (int d = 0; d < nd; d++) if (std::fabs(a[d][i] - b[d][j]) > dmax[d]) return true; return false; }
+  double r = 0; for (int d = 0; d < nd; d++) r += sq((a[d][i] - b[d][j]) / dmax[d]);
+  return r > 1;
+}
+static const int NDMAX = 5;
+static VD dmaxOf(int k, int ndim)
+{
+  VD d;
+  switch (k)
+  {
+    case 0: return d;
+    case 1: d = {1.5, 1.5, 1.5}; break;
+    case 2: d = {4, 0.75, 2}; break;
+    case 3: d = {0.5, 8, 0.5}; break;
+    case 4: d = {64, 64, 64}; break;
+  }
+  d.resize(ndim);
+  return d;
+}
+}  // namespace p4
+
+VF_PART(p4_migrate_ball)
+{
+  using namespace p4;
+  bool T = C.thorough();
+  Space sp;
+  sp.axis("ndim", 3).axis("layout", NLAYOUT).axis("n", T ? 4 : 2).axis("sel", 4).axis("undef", 2).axis("target", 3).axis("dmax", NDMAX).axis("distType", 2);
+  for_each_case(C, sp, [&](uint64_t id, const std::vector<int>& idx) {
+    int ndim = idx[0] + 1, ilay = idx[1], n = T ? 3 + idx[2] : (idx[2] ? 6 : 4), ksel = idx[3], kund = idx[4], ktar = idx[5], kd = idx[6], distType = idx[7] + 1;
+    std::string kase = std::to_string(id);
+    set_ndim(ndim);   // the ball tree measures distances in the default space
+    Raw r = make_raw(ndim, 1, ilay, n);
+    r.sel = p1::selmask(ksel, n);   // none / alternate / first+last masked / only last active
+    if (kund) r.z[0][1] = TEST;
+    VD dmax = dmaxOf(kd, ndim);
+    // target: 0 = 5 points, 1 = 5 points with a selection, 2 = grid (flag_fill) -- 1-D/2-D/3-D 3^ndim nodes
+    VVD tx; VD tsel;
+    auto mkTarget = [&]() -> Db* {
+      if (ktar < 2)
+      {
+        Raw t; t.ndim = ndim; t.nvar = 0; t.n = 5; t.x = targets(ndim, ilay, 5); tx = t.x;
+        if (ktar == 1) { t.sel = {1, 1, 0, 1, 1}; tsel = t.sel; }
+        return raw_to_db(t);
+      }
+      VectorInt nx(ndim, 3); VectorDouble dx(ndim), x0(ndim);
+      for (int d = 0; d < ndim; d++) { dx[d] = 1.375 + 0.25 * d; x0[d] = -0.3125 + 0.125 * d; }
+      DbGrid* g = DbGrid::create(nx, dx, x0);
+      tx = VVD(ndim);
+      for (int i = 0; i < g->getSampleNumber(); i++) for (int d = 0; d < ndim; d++) tx[d].push_back(g->getCoordinate(i, d));
+      return g;
+    };
+    VD res[2];
+    int err[2];
+    for (int ball = 0; ball < 2; ball++)
+    {
+      DbP din(raw_to_db(r));
+      DbP dout(mkTarget());
+      err[ball] = migrate(din.get(), dout.get(), "z1", distType, VectorDouble(dmax.begin(), dmax.end()), ktar == 2, false, ball == 1);
+      res[ball] = kk::col(dout.get(), "Migrate.z1");
+      if (err[ball] == 0 && dout->getColIdx("Migrate.z1") < 0) { int nc = dout->getColumnNumber(); res[ball].clear(); for (int i = 0; i < dout->getSampleNumber(); i++) res[ball].push_back(dout->getValueByColIdx(i, nc - 1)); }
+    }
+    C.eval();
+    if (err[0] != err[1]) { C.outcome("error-codes-differ"); C.violation("migrate-ball:error-code", "migrate returns " + std::to_string(err[0]) + " without and " + std::to_string(err[1]) + " with flag_ball; data=" + raw_str(r), kase); return; }
+    if (err[0]) { C.skip(); C.outcome("both-refused"); return; }
+    int nt = (int)tx[0].size();
+    bool nontriv = false;
+    for (int t = 0; t < nt; t++)
+    {
+      bool tactive = tsel.empty() || tsel[t] > 0;
+      // brute force: nearest active sample / nearest sample regardless of selection / nearest admissible (within dmax) active sample
+      int iAll = -1, iAct = -1, iAdm = -1; double bAll = 1e300, bAct = 1e300, bAdm = 1e300; bool tie = false;
+      for (int i = 0; i < n; i++)
+      {
+        double dd = d2(r.x, i, tx, t);
+        if (dd == bAll || dd == bAct || dd == bAdm) tie = true;
+        if (dd < bAll) { bAll = dd; iAll = i; }
+        bool act = r.sel.empty() || r.sel[i] > 0;
+        if (act && dd < bAct) { bAct = dd; iAct = i; }
+        if (act && !beyond(r.x, i, tx, t, distType, dmax) && dd < bAdm) { bAdm = dd; iAdm = i; }
+      }
+      if (tie) { C.skip(); C.outcome("excluded:equidistant-samples"); continue; }
+      double a = res[0][t], b = res[1][t];
+      bool same = (FFFF(a) && FFFF(b)) || a == b;
+      if (!tactive)
+      {
+        C.outcome((FFFF(a) && FFFF(b)) ? "masked-target:left-undefined" : "masked-target:WRITTEN");
+        if (!(FFFF(a) && FFFF(b))) C.violation("migrate:masked-target-written", "masked target " + std::to_string(t) + " received " + fmt(a) + " / " + fmt(b), kase);
+        continue;
+      }
+      nontriv = true;
+      double vAdm = iAdm >= 0 ? r.z[0][iAdm] : TEST;
+      std::string cls = same ? "equal" : "DIFFERENT";
+      C.outcome(std::string("target:") + cls + (kd ? ":dmax" : ":no-dmax") + (r.sel.empty() ? "" : ":input-selection"));
+      if (!same)
+      {
+        double vAll = r.z[0][iAll];
+        bool exhOK = (FFFF(a) && FFFF(vAdm)) || a == vAdm;
+        bool ballOK = (FFFF(b) && FFFF(vAdm)) || b == vAdm;
+        std::string tk = ktar == 2 ? "point-to-grid-fill" : "point-to-point";
+        // mechanism keys. Point-to-point: the two paths are the ball tree and the plain double loop. Point-to-grid with flag_fill:
+        // flag_ball switches between the ball tree and expandPointToGrid (a sorted sweep), three answers can differ.
+        std::string key = "migrate-ball:" + tk + ":differs" + (kd ? ":with-dmax" : "");
+        bool inputFiltered = !r.sel.empty() || kund;
+        if (ktar == 2) key = "migrate-ball:point-to-grid-fill:" + std::string(inputFiltered ? "with-masked-or-undefined-input" : kd ? "with-dmax" : "plain");
+        else if (exhOK && iAll != iAct && ((FFFF(b) && FFFF(vAll)) || b == vAll || FFFF(b))) key = "migrate-ball:point-to-point:input-selection-ignored-by-ball";
+        else if (exhOK && iAdm != iAct && FFFF(b)) key = "migrate-ball:point-to-point:nearest-beyond-dmax-not-replaced";
+        C.outcome("DIFFERENT:" + key.substr(13) + ":" + (exhOK ? "ball-wrong" : ballOK ? "exhaustive-wrong" : "both-differ-from-brute-force"));
+        C.violation(key, "target " + std::to_string(t) + " (" + [&] { std::string q; for (int d = 0; d < ndim; d++) q += (d ? "," : "") + fmt(tx[d][t]); return q; }() + "): exhaustive=" + fmt(a) + " ball=" + fmt(b) +
+                    " brute-force(nearest admissible active sample #" + std::to_string(iAdm) + ")=" + fmt(vAdm) + " ; nearest of all samples #" + std::to_string(iAll) + " nearest active #" + std::to_string(iAct) +
+                    " data=" + raw_str(r) + " dmax=" + vstr(dmax) + " distType=" + std::to_string(distType) + " targetkind=" + std::to_string(ktar), kase);
+      }
+    }
+    if (nontriv) C.nontrivial(id);
+  });
+}
+
+// =====================================================================================================
+// Part 4b: NeighMoving with ball-tree search  vs  plain scan, restricted (as the property says) to targets whose
+//          nmaxi Euclidean-nearest samples are all admissible (active, defined, within the radius); isotropic search.
+// =====================================================================================================
+VF_PART(p4_neigh_ball)
+{
+  using namespace p4;
+  bool T = C.thorough();
+  Space sp;
+  sp.axis("ndim", 3).axis("layout", NLAYOUT).axis("n", T ? 3 : 2).axis("sel", 3).axis("undef", 2).axis("nmaxi", 5).axis("radius", 3).axis("leaf", 3).axis("xvalid", 2).axis("coeffs", 2);
+  static const int LEAF[3] = {1, 2, 10};
+  for_each_case(C, sp, [&](uint64_t id, const std::vector<int>& idx) {
+    int ndim = idx[0] + 1, ilay = idx[1], n = T ? 4 + idx[2] : (idx[2] ? 6 : 4), ksel = idx[3], kund = idx[4];
+    int nmaxi = idx[5] < 3 ? idx[5] + 1 : idx[5] == 3 ? n : n + 2;
+    double radius = idx[6] == 0 ? TEST : idx[6] == 1 ? 2.5 : 64.;
+    int leaf = LEAF[idx[7]];
+    bool xv = idx[8];
+    // isotropic search either without anisotropy coefficients or with coefficients all equal to 1 (same definition)
+    VectorDouble coeffs = idx[9] ? VectorDouble(ndim, 1.) : VectorDouble();
+    std::string kase = std::to_string(id);
+    set_ndim(ndim);
+    Raw r = make_raw(ndim, 1, ilay, n);
+    r.sel = p1::selmask(ksel, n);
+    if (kund) r.z[0][1] = TEST;
+    DbP din(raw_to_db(r));
+    Raw t; t.ndim = ndim; t.nvar = 0; t.n = 5; t.x = targets(ndim, ilay, 5);
+    DbP dtar(raw_to_db(t));
+    Db* dout = xv ? din.get() : dtar.get();
+    const VVD& tx = xv ? r.x : t.x;
+    int nt = xv ? n : 5;
+    std::unique_ptr<NeighMoving> plain(NeighMoving::create(xv, nmaxi, radius, 1, 1, ITEST, coeffs)), ball(NeighMoving::create(xv, nmaxi, radius, 1, 1, ITEST, coeffs));
+    ball->setBallSearch(true, leaf);
+    if (plain->attach(din.get(), dout) || ball->attach(din.get(), dout)) { C.skip(); C.outcome("attach-refused"); return; }
+    for (int it = 0; it < nt; it++)
+    {
+      if (!dout->isActive(it)) continue;
+      // admissibility decided by the harness
+      std::vector<std::pair<double, int>> byd;
+      for (int i = 0; i < n; i++) byd.push_back({d2(r.x, i, tx, it), i});
+      std::sort(byd.begin(), byd.end());
+      int k = std::min(nmaxi, n);
+      bool ok = true, tie = false;
+      for (int j = 0; j < k; j++)
+      {
+        int i = byd[j].second;
+        bool act = r.sel.empty() || r.sel[i] > 0;
+        bool def = !FFFF(r.z[0][i]);
+        bool within = FFFF(radius) || byd[j].first <= radius * radius;
+        bool self = xv && i == it;
+        if (!act || !def || !within || self) ok = false;
+      }
+      if (k < n && byd[k - 1].first == byd[k].first) tie = true;
+      if (!ok) { C.skip(); C.outcome("excluded:some-of-the-nmaxi-nearest-not-admissible"); continue; }
+      if (tie) { C.skip(); C.outcome("excluded:tie-at-the-nmaxi-th-distance"); continue; }
+      VectorInt ra, rb;
+      plain->select(it, ra);
+      ball->select(it, rb);
+      C.eval();
+      std::vector<int> exp; for (int j = 0; j < k; j++) exp.push_back(byd[j].second);
+      std::sort(exp.begin(), exp.end());
+      std::vector<int> va(ra.begin(), ra.end()), vb(rb.begin(), rb.end());
+      std::sort(va.begin(), va.end()); std::sort(vb.begin(), vb.end());
+      bool same = va == vb;
+      C.outcome(std::string(same ? "same-neighbours" : "DIFFERENT-neighbours") + (nmaxi < n ? ":truncating" : ":all-samples"));
+      if (nmaxi < n) C.nontrivial(Hash().u(id).i(it).h);
+      // mechanism seen on the unchanged tree: without coefficients BiTargetCheckDistance works in 2 dimensions whatever the space
+      bool plain2d = false;
+      if (!same && ndim == 3 && coeffs.empty())
+      {
+        std::vector<std::pair<double, int>> b2;
+        for (int i = 0; i < n; i++) b2.push_back({sq(r.x[0][i] - tx[0][it]) + sq(r.x[1][i] - tx[1][it]), i});
+        std::sort(b2.begin(), b2.end());
+        std::vector<int> e2; for (int j = 0; j < k; j++) e2.push_back(b2[j].second);
+        std::sort(e2.begin(), e2.end());
+        plain2d = (e2 == va) && vb == exp;
+      }
+      if (!same)
+        C.violation(plain2d ? "neigh-ball:plain-scan-ignores-third-coordinate-without-coeffs" : std::string("neigh-ball:differs") + (nmaxi > n ? ":nmaxi-exceeds-sample-count" : ""), "target " + std::to_string(it) + ": plain scan selects " + vstr(va) + ", ball search selects " + vstr(vb) + ", the nmaxi Euclidean-nearest (all admissible) are " + vstr(exp) +
+                    " ; nmaxi=" + std::to_string(nmaxi) + " radius=" + fmt(radius) + " leaf=" + std::to_string(leaf) + " xvalid=" + std::to_string(xv) + " coeffs=" + vstr(coeffs) + " data=" + raw_str(r), kase);
+      else if (va != exp)
+        C.violation("neigh-ball:both-differ-from-definition", "target " + std::to_string(it) + ": both searches select " + vstr(va) + " but the nmaxi nearest admissible samples are " + vstr(exp) + " data=" + raw_str(r), kase);
+    }
+  });
+}
+
+// =====================================================================================================
+// Part 5: block kriging with a single discretisation point per block  vs  point kriging (grid targets)
+// =====================================================================================================
+VF_PART(p5_block_ndisc1)
+{
+  using namespace kk;
+  using namespace p2;
+  bool T = C.thorough();
+  Space sp;
+  sp.axis("ndim", 3).axis("layout", NLAYOUT).axis("n", T ? 3 : 1).axis("model", NMODEL1 + NMODEL2).axis("mean", NMEAN).axis("upat", 3).axis("neigh", 3).axis("grid", 2);
+  for_each_case(C, sp, [&](uint64_t id, const std::vector<int>& idx) {
+    int ndim = idx[0] + 1, ilay = idx[1], n = T ? 4 + idx[2] : 5;
+    int nvar = idx[3] < NMODEL1 ? 1 : 2, im = idx[3] < NMODEL1 ? idx[3] : idx[3] - NMODEL1, kmean = idx[4], upat = idx[5], kn = idx[6];
+    bool intrinsic = nvar == 1 && im == 7;
+    std::string kase = std::to_string(id);
+    if (intrinsic && kmean < 2) { C.skip(); C.outcome("excluded:intrinsic-model-without-drift"); return; }
+    int nfeq = kmean == 2 ? 1 : kmean == 3 ? 1 + ndim : 0;
+    if (n - 2 <= nfeq) { C.skip(); C.outcome("excluded:not-more-data-than-drift-equations"); return; }
+    if (kn > 0 && 3 <= nfeq) { C.skip(); C.outcome("excluded:not-more-data-than-drift-equations"); return; }
+    Raw r = make_raw(ndim, nvar, ilay, n);
+    if (upat == 1) r.z[0][1] = TEST;
+    if (upat == 2) { r.z[nvar - 1][0] = TEST; r.z[0][2] = TEST; }
+    set_ndim(ndim);
+    auto mkNeigh = [&]() -> ANeigh* {
+      if (kn == 0) return NeighUnique::create();
+      return NeighMoving::create(false, kn == 1 ? 3 : 4, TEST, 1, 1, ITEST, VectorDouble(ndim, 1.));
+    };
+    Out o[2];
+    int nt = 0;
+    for (int blk = 0; blk < 2; blk++)
+    {
+      DbP din(raw_to_db(r));
+      VectorInt nx(ndim, idx[7] ? 2 : 3); VectorDouble dx(ndim), x0(ndim);
+      for (int d = 0; d < ndim; d++) { dx[d] = idx[7] ? 2.25 - 0.5 * d : 1.375 + 0.25 * d; x0[d] = -0.3125 + 0.125 * d; }
+      std::unique_ptr<DbGrid> g(DbGrid::create(nx, dx, x0));
+      nt = g->getSampleNumber();
+      ModelP m(make_model(ndim, nvar, im)); applyMean(m.get(), kmean, intrinsic);
+      std::unique_ptr<ANeigh> ng(mkNeigh());
+      o[blk].err = kriging(din.get(), g.get(), m.get(), ng.get(), blk ? EKrigOpt::BLOCK : EKrigOpt::POINT, true, true, false, blk ? VectorInt(ndim, 1) : VectorInt());
+      for (int iv = 0; iv < nvar; iv++)
+      {
+        std::string z = "Kriging.z" + std::to_string(iv + 1);
+        o[blk].est[iv] = col(g.get(), z + ".estim"); o[blk].std[iv] = col(g.get(), z + ".stdev"); o[blk].varz[iv] = col(g.get(), z + ".varz");
+      }
+    }
+    C.eval();
+    if (o[0].err && o[1].err) { C.skip(); C.outcome("both-refused"); return; }
+    double worst = 0;
+    std::string d = cmpOut(o[0], o[1], nvar, nt, false, worst);
+    C.outcome(d.empty() ? "equal:" + decade(worst) : "DIFFERENT");
+    bool defined = false;
+    for (int t = 0; t < nt; t++) if (!FFFF(o[0].est[0][t]) && !std::isnan(o[0].est[0][t])) defined = true;
+    if (defined) C.nontrivial(id);
+    if (!d.empty())
+    {
+      // mechanism seen on the unchanged tree: the weights / estimates agree, the block variance uses Cvv evaluated between the
+      // discretisation point and a randomly shifted copy of it instead of C(0): var_point - var_block is the same at every target
+      std::string key = "block-ndisc1:differs";
+      if (d.find("stdev") == 0)
+      {
+        bool constant = true, estSame = true; double off = std::nan(""); std::string offs;
+        for (int iv = 0; iv < nvar && constant; iv++)
+        {
+          off = std::nan("");
+          for (int t = 0; t < nt; t++)
+          {
+            double e0 = o[0].est[iv][t], e1 = o[1].est[iv][t], s0 = o[0].std[iv][t], s1 = o[1].std[iv][t];
+            if (FFFF(e0) || FFFF(e1) || FFFF(s0) || FFFF(s1)) continue;
+            if (std::fabs(e0 - e1) > 1e-9 * std::max(1., std::fabs(e0))) estSame = false;
+            double dv = s0 * s0 - s1 * s1;
+            offs += " " + fmt(dv) + "(est " + fmt(e0 - e1) + ")";
+            if (std::isnan(off)) off = dv;
+            else if (std::fabs(dv - off) > 1e-8 * std::max(1., std::fabs(off))) constant = false;
+          }
+        }
+        if (estSame) { key = "block-ndisc1:estimates-equal-variance-differs(Cvv-of-shifted-point-instead-of-C0)"; C.outcome(constant ? "variance-offset:constant-over-targets" : "variance-offset:varies-over-targets"); }
+        d += " [var_point-var_block per target:" + offs + "]";
+      }
+      C.violation(key, "point kriging vs block kriging with ndisc=1: " + d + " ; data=" + raw_str(r) + " model=" + model_name(nvar, im) + " " + MEAN_NAME[kmean] + " neigh=" + std::to_string(kn) + " grid=" + std::to_string(idx[7]), kase);
+    }
+  });
+}
+
+// ---- history: the same comparison when the model object has served other requests before (E2 over request sequences).
+// The reference is the plain path on a FRESH model, so that a history effect on the plain path itself is seen too.
+VF_PART(p1_history)
+{
+  using namespace p1;
+  static const int NM = 3;
+  int depth = C.thorough() ? 4 : 3;
+  for (int km = 0; km < NM; km++)
+  {
+    int ndim = 2, nvar = km == 2 ? 2 : 1, im = km == 0 ? 1 : km == 1 ? 6 : 1;
+    Raw ra = make_raw(ndim, nvar, 0, 4);
+    Raw rm = make_raw(ndim, nvar, 0, 5); rm.sel = VD(5, 0.);
+    Raw ru = make_raw(ndim, nvar, 1, 3); for (auto& z : ru.z) for (auto& v : z) v = TEST;
+    Raw rb = make_raw(ndim, nvar, 1, 6);
+    Raw rt; rt.ndim = ndim; rt.nvar = 0; rt.n = 4; rt.x = targets(ndim, 0, 4);
+    DbP dbA(raw_to_db(ra)), dbM(raw_to_db(rm)), dbU(raw_to_db(ru)), dbB(raw_to_db(rb)), dbT(raw_to_db(rt));
+    auto request = [&](Model* m, int op, bool optim) -> MatrixRectangular {
+      switch (op)
+      {
+        case 0: return optim ? m->evalCovMatrixOptim(dbA.get()) : m->evalCovMatrix(dbA.get());
+        case 1: return optim ? m->evalCovMatrixOptim(dbM.get()) : m->evalCovMatrix(dbM.get());
+        case 2: return optim ? m->evalCovMatrixOptim(dbU.get()) : m->evalCovMatrix(dbU.get());
+        case 3: { MatrixSquareSymmetric s = optim ? m->evalCovMatrixSymmetricOptim(dbB.get()) : m->evalCovMatrixSymmetric(dbB.get());
+                  MatrixRectangular r(s.getNRows(), s.getNCols()); for (int i = 0; i < s.getNRows(); i++) for (int j = 0; j < s.getNCols(); j++) r.setValue(i, j, s.getValue(i, j)); return r; }
+        case 4: return m->evalCovMatrix(dbA.get());   // plain path on the used model
+        case 5: return optim ? m->evalCovMatrixOptim(dbA.get(), dbT.get()) : m->evalCovMatrix(dbA.get(), dbT.get());
+      }
+      return MatrixRectangular();
+    };
+    static const char* OPN[6] = {"optim(dbA)", "optim(db all masked)", "optim(db all undefined)", "symOptim(dbB)", "plain(dbA)", "optim(dbA,targets)"};
+    C.cur_part = "p1_history";
+    bfs(C, 6, depth, [&](const History& h) -> StepResult {
+      ModelP m(make_model(ndim, nvar, im));
+      MatrixRectangular last;
+      bool failedBefore = false;
+      for (size_t k = 0; k < h.size(); k++)
+      {
+        last = request(m.get(), h[k], true);
+        if (k + 1 < h.size() && last.getNRows() == 0) failedBefore = true;
+      }
+      StepResult r;
+      if (!h.empty())
+      {
+        ModelP fresh(make_model(ndim, nvar, im));
+        MatrixRectangular ref = request(fresh.get(), h.back(), false);
+        std::string d = mat_diff(ref, last, 1e-10, 1.);
+        C.outcome(std::string(failedBefore ? "after-failed-request:" : "after-good-requests:") + (d.empty() ? "equal" : "DIFFERENT"));
+        if (h.size() > 1) C.nontrivial(Hash().i(km).vi(h).h);
+        if (!d.empty())
+        {
+          std::string hs; for (int op : h) hs += std::string(hs.empty() ? "" : " ; ") + OPN[op];
+          C.violation(failedBefore ? (h.back() == 4 ? "optim:stale-cache-after-failure:plain-path" : "optim:stale-cache-after-failure") : "optim:history-after-success",
+                      std::string("request sequence [") + hs + "] on one model (" + model_name(nvar, im) + "): last result differs from the plain path on a fresh model at " + d, hist_str(h));
+        }
+      }
+      // hidden state = flags and cached point counts of every structure (+ the list)
+      Hash k; k.i(km);
+      const ACovAnisoList* l = m->getCovAnisoList();
+      k.i(l->_isOptimPreProcessed);
+      for (int i = 0; i < l->getCovaNumber(); i++) { k.i(l->getCova(i)->_isOptimPreProcessed).u(l->getCova(i)->_p1As.size()); }
+      r.key = k.h;
+      return r;
+    }, false);
+  }
 }
 
 int main(int argc, char** argv)
